@@ -10,6 +10,7 @@ CONSTANTS
   FullLevels = {3}
   MedLevels = {}
   TinyLevels = {1,2}
+  AliasLevels = {}
   XOffs = {}
   XLens = {}
   MaxLen = 9
